@@ -90,8 +90,8 @@ def gen_cases(d, by_name, rng, tier, has_builder=False):
                 scen.append((m, [('W', f['name'], 0, 0), ('R',)]))
                 scen.append((0, [('S', f['name'], 0, (1 << n) - 1), ('R',)]))
         return scen
-    exhaustive_get = W <= (5 if quick else 8)
-    exhaustive_set = W <= (3 if quick else 5)
+    exhaustive_get = W <= (5 if quick else 7)
+    exhaustive_set = W <= (3 if quick else 4)
     for f in d['fields']:
         is_arr = f.get('count') is not None
         idxs = indices_for(rng, f)
@@ -139,9 +139,9 @@ def gen_cases(d, by_name, rng, tier, has_builder=False):
             ops.append(('R',))
             scen.append((rng.getrandbits(W), ops))
     if writable:
-        nh = 3 if quick else 6
+        nh = 3 if quick else 4
         for _ in range(nh):
-            L = rng.choice([4, 16, 64]) if quick else rng.choice([16, 64, 256, 1000])
+            L = rng.choice([4, 16, 64]) if quick else rng.choice([16, 64, 256, 512])
             ops = []
             for _ in range(L):
                 c = rng.random()
